@@ -24,6 +24,7 @@ import Kvass.Proofs.CoordNeed
 import Kvass.Proofs.CoordGcWhole
 import Kvass.Proofs.LoopStable
 import Kvass.Proofs.LoopRepair
+import Kvass.Proofs.LoopStay
 
 namespace Kvass.Props.C03
 open Kvass Kvass.Coord Kvass.Spec
@@ -376,5 +377,41 @@ theorem C03_further_cycles (swr : Swr) (env : Loop.Env) (hoff : env.opt.idleOn =
 theorem C03_unique_normal (swr : Swr) (sc : Sched) (inp : Input) (h : Hash) (hne : stopsEarly inp = false)
     (h0 : OneNormalAt h (startCS inp)) : OneNormalAt h (cycle swr sc inp).cs :=
   cycle_oneNormal swr sc inp h hne h0
+
+/-- **C03, convergence from a settled state, in one cycle** (closed-loop model): whatever initial
+    placement of moves and duplicates — a target reported by two running sidecars once in transfer and
+    once in normal state, or twice in normal state, or in transfer with no partner; three scrapes each;
+    no overload, every discovered target held, scale-down off — after ONE fault-free `Loop.step` every
+    reported target is in normal state, no target is reported twice, nothing that was reported is lost,
+    and the StatefulSet has its size. -/
+theorem C03_converges_from_settled (swr : Swr) (env : Loop.Env) (w : Loop.World) (sc : Sched)
+    (r : Loop.Settled2 swr env w) :
+    (Loop.step swr env w (.cycle sc [] false)).replicas = w.replicas ∧
+    (∀ (i : Nat) (sh' : Loop.Shard) (h : Hash) (v : St), i < w.replicas →
+      (Loop.step swr env w (.cycle sc [] false)).shards[i]? = some sh' →
+      (Loop.statusOf sh').get h = some v → v.state = .normal) ∧
+    (∀ (i j : Nat) (shi shj : Loop.Shard) (h : Hash), i < w.replicas → j < w.replicas → i ≠ j →
+      (Loop.step swr env w (.cycle sc [] false)).shards[i]? = some shi →
+      (Loop.step swr env w (.cycle sc [] false)).shards[j]? = some shj →
+      (Loop.statusOf shi).has h = true → (Loop.statusOf shj).has h = true → False) ∧
+    (∀ (i : Nat) (sh : Loop.Shard) (h : Hash), w.running[i]? = some sh → (Loop.statusOf sh).has h = true →
+      ∃ (d : Nat) (shd : Loop.Shard), d < w.replicas ∧
+        (Loop.step swr env w (.cycle sc [] false)).shards[d]? = some shd ∧ (Loop.statusOf shd).has h = true) :=
+  Loop.loop_settles2_converged swr env w sc r
+
+/-- … **and further cycles then change nothing** (when the state reached is calm and fully placed) -/
+theorem C03_converged_then_stable (swr : Swr) (env : Loop.Env) (w : Loop.World) (sc : Sched)
+    (r : Loop.Settled2 swr env w)
+    (hidle : ∀ sh ∈ w.running, sh.sc.status = [] → sh.sc.idleAt.isSome = true)
+    (hcalm' : env.opt.disableAlleviate = true ∨
+      CalmSS swr env.opt (infos0 (Loop.inputOf env (Loop.step swr env w (.cycle sc [] false)) [] false)))
+    (hplaced' : ∀ h ∈ w.active,
+      (scrapingSetOf (infos0 (Loop.inputOf env (Loop.step swr env w (.cycle sc [] false)) [] false))).contains h = true ∨
+      Gen.assignSkip (globalOf (infos0 (Loop.inputOf env (Loop.step swr env w (.cycle sc [] false)) [] false)) w.explore h) = true ∨
+      Gen.tooBig env.opt (globalOf (infos0 (Loop.inputOf env (Loop.step swr env w (.cycle sc [] false)) [] false)) w.explore h) = true) :
+    ∀ scs : List Sched,
+      Loop.Unchanged (Loop.step swr env w (.cycle sc [] false))
+        (Loop.cycles swr env (Loop.step swr env w (.cycle sc [] false)) scs) :=
+  Loop.loop_recovers_and_stays swr env w sc r hidle hcalm' hplaced'
 
 end Kvass.Props.C03
